@@ -504,7 +504,7 @@ def execute(record):
                     elif kind == "set_params":
                         name, val = op["change"]
                         real = val
-                        if not is_kauri and name in ("feature_mask", "gemini", "kernel", "base_kernel"):
+                        if not is_kauri and name in ("feature_mask", "gemini", "kernel", "base_kernel", "groups"):
                             real = build_params(dict(cfg, params={name: copy.deepcopy(val)}), log)[name]
                         model.set_params(**{name: real})
                         user_params[name] = val
